@@ -149,8 +149,7 @@ func H_C17_newpeer() {
 
 // H_C20_getbyname: the lookup the FUSE root uses: with two torrents registered (names of <= 2
 // symbolic bytes, hashes differing in a symbolic first byte), GetByName(name) returns nil exactly
-// when no torrent has that name, and otherwise a torrent with that name - the one with the
-// smallest info-hash when both have it (deterministic).
+// when no torrent has that name, and otherwise a listed torrent with that name.
 func H_C20_getbyname() {
 	h0 := hash.Hash([]byte{vU8("hb0"), 1, 2, 3, 4, 5, 6, 7, 8, 9, 10, 11, 12, 13, 14, 15, 16, 17, 18, 19})
 	h1 := hash.Hash([]byte{vU8("hb1"), 1, 2, 3, 4, 5, 6, 7, 8, 9, 10, 11, 12, 13, 14, 15, 16, 17, 18, 19})
@@ -169,7 +168,7 @@ func H_C20_getbyname() {
 		vAssert(t == t0 || t == t1, "a lookup resolves to a listed torrent")
 		if m0 && m1 {
 			vReach("ambiguous")
-			vAssert((t == t0) == (h0[0] < h1[0]), "of two torrents with the same name the one with the smaller hash is chosen")
+			// which of the two is chosen is the implementation's business (today: the smaller hash)
 		}
 	}
 	del(h0)
